@@ -352,7 +352,39 @@ _check_quick = check
 
 def check(ctx, run):  # noqa: F811
     _check_quick(ctx, run)
+    precision_rule(ctx, run)
     factory_lookup(ctx, run)
     B.default_call_is_call(ctx.prog, ctx.interp, run, "C07.R5", ["bs_european_price", "bs_european_binary_price"])
     if ctx.tier == "thorough":
         module_level(ctx, run)
+
+
+def precision_rule(ctx, run):
+    """R7: the strike, a Python float, reaches the closed form as a Python float: it is not first turned into a 0-dim tensor of the global
+    default dtype (torch.as_tensor(strike) / torch.tensor(strike) without dtype), which rounds it to float32 before float64 arithmetic
+    (relative error 6e-8 in the price for strike = 1.1).  A necessary condition of 'float64 prices are accurate to float64': the rounding
+    itself is not evaluated, only the lossy conversion on the way is reported."""
+    from .. import world as W
+    prog, interp = ctx.prog, ctx.interp
+    run.require("C07.R7", 4)
+    for fname in ("bs_european_price", "bs_european_binary_price", "bs_american_binary_price", "bs_lookback_price"):
+        fi = prog.functions.get(B.F + fname)
+        if fi is None:
+            raise AnalysisError(f"anchor vanished: {fname}")
+        params = [a.arg for a in fi.node.args.args]
+        kw = {}
+        for p_ in params:
+            if p_ in ("log_moneyness", "time_to_maturity", "volatility", "max_log_moneyness"):
+                kw[p_] = W.tensor(p_)
+            elif p_ == "strike":
+                kw[p_] = W.fl("strike")
+            elif p_ == "call":
+                kw[p_] = True
+        res = [r for r in interp.explore(fi, [], kw, max_paths=50) if not r["raises"]]
+        if not res:
+            raise AnalysisError(f"{fname}: no path")
+        lossy = sorted({f"{e['how']} applied to {e['value']}" for r in res for e in r["events"] if e["kind"] == "lossy_scalar" and str(e["value"]) == "strike"})
+        run.oblige("C07.R7", f"{fname}: the strike is not rounded to the default dtype on its way into the formula", not lossy, "; ".join(lossy) or "strike used as a Python float")
+        if lossy:
+            run.fail(Finding("C07.R7", fi.qualname, "; ".join(lossy), "the strike is rounded to float32 before it enters float64 arithmetic: float64 prices lose half their digits for strikes that are not float32 numbers",
+                             file=str(prog.modules[fi.module].path), line=fi.node.lineno))
